@@ -461,7 +461,7 @@ ALPHABET = "AVCNLHPXSEMRUITDOFWY:/.0123456789 acnlx_-\t"
 
 def edit(s, rng, ver):
     """one edit of the kinds named in C04"""
-    kind = rng.randrange(20)
+    kind = rng.randrange(21)
     fields = s.split("/")
     if kind == 0 and s:  # delete a character
         i = rng.randrange(len(s))
@@ -539,6 +539,9 @@ def edit(s, rng, ver):
         f = rng.choice([m + "X:" + rng.choice(vals), "Z" + m + ":" + rng.choice(vals), m + ":" + rng.choice(vals) + "X",
                         m + ":", m, m.lower() + ":" + rng.choice(vals), m + ":" + rng.choice(vals).lower()])
         return "/".join(fields[:i] + [f] + fields[i:])
+    if kind == 20:  # the vector enclosed the way prose, feeds and shells quote it
+        l, r = rng.choice([("(", ")"), ("[", "]"), ('"', '"'), ("'", "'"), ("<", ">"), ("{", "}"), ("`", "`"), ("( ", " )"), ("\u201c", "\u201d")])
+        return l + s + r
     if kind == 18 and fields:  # another letter case of a whole metric or value token of the vector itself
         i = rng.randrange(len(fields))
         if ":" in fields[i]:
